@@ -223,7 +223,7 @@ Definition max_list (d : pt -> Q) (l : list pt) (init : Q) : Q :=
 Definition auto_root (slack : Q) (data : list pt) (N : nat) : option cell :=
   match firstn N data with
   | [] => None
-  | p0 :: _ as l =>
+  | (p0 :: _) as l =>       (* NB: `p0 :: _ as l` would bind l to the tail *)
     let s := sum_pts l in
     let mx := Qred (fst s / Qn N) in
     let my := Qred (snd s / Qn N) in
